@@ -20,7 +20,7 @@ LEVEL_TEXT = ('Exploration with an exhaustive slice: every history of length <= 
               'After every step the effective table of each of the six registry kinds of every lattice and shipped class is compared '
               'with an executable model of "nearest class in the MRO owning a table; first write copies" (keys, value identity, list '
               'order, and object identity of the tables themselves), and behavioural probes (load/compose/dump through every class) must '
-              'agree with the model.')
+              'agree with the model.' + ' The operation set includes a second-level YAMLObject subclass that only inherits its tag (with and without an overridden yaml_loader / yaml_dumper), which must register nothing.')
 LEVEL_NOTE = 'Trusted: the 60-line registry model as the statement of the rule; histories longer than the bound are sampled.'
 TECHNIQUE = 'runtime monitoring: executable reference model of the registries vs hooked class state + behavioural probes, forked histories'
 DESIGN_REF = 'DESIGN.md section 3, C10'
